@@ -10,7 +10,9 @@
 //   {"a":"Response","ver":..,"cred":C}       C = right|wrongPw|otherUser|malformed|empty
 //   {"a":"Abort","ver":..}
 //   {"a":"Bind","r":"ra|rv"}   {"a":"Session"}
-//   {"a":"Stanza","k":"message|presence|iq","f":"absent|own|ownBare|victim|other","t":"victimBare|victimFull|domain|absent"}
+//   {"a":"Stanza","k":"message|presence|iq","f":"absent|own|ownBare|victim|other|ownOtherRes|ownSibling|ownCase|
+//        ownSlash|ownPrefix|ownDomain|ownLookalike","t":"victimBare|victimFull|domain|absent"}
+//        (ownSibling: a second honest session attacker@example.org/sib is logged in for that behaviour)
 //   {"a":"Reply","i":n}        the password checker (asynchronous API) finishes its n-th pending reply
 // After each step the harness waits until the server's reaction is complete (see settle()) and
 // logs what both raw clients received during the step, the clientConnected/Disconnected signals,
@@ -28,12 +30,14 @@
 #include <QPointer>
 #include <QSslSocket>
 #include <QTcpServer>
+#include <QThread>
 
 #include <linux/sockios.h>
 #include <netinet/in.h>
 #include <netinet/tcp.h>
 #include <poll.h>
 #include <sys/mman.h>
+#include <sys/socket.h>
 #include <sys/wait.h>
 #include <unistd.h>
 #include <sys/ioctl.h>
@@ -42,6 +46,7 @@ namespace {
 
 const QString kDomain = QStringLiteral("example.org");
 const QString kAtt = QStringLiteral("attacker"), kAttPw = QStringLiteral("apw");
+const QString kSibRes = QStringLiteral("sib");   // resource of the attacker account's second (honest) session
 const QString kVic = QStringLiteral("victim"), kVicPw = QStringLiteral("vpw-secret"), kVicRes = QStringLiteral("rv");
 
 // A password checker whose replies are finished by the harness (the checker API is asynchronous:
@@ -118,6 +123,8 @@ struct World {
     HarnessChecker checker;
     QXmppServer server;
     RawClient vic, att;
+    RawClient sib;         // optional second, honest session of the attacker's account (resource "sib")
+    bool haveSib = false;
     int received = 0;      // ReceivedMessage records of the server (one per parsed read buffer)
     int logRecords = 0;    // all logger records
     QJsonArray sig;        // signals of the current step
@@ -145,9 +152,19 @@ struct World {
         });
     }
 
+    // Setting up the listening socket is harness business, not an observation: when the machine
+    // is short of ephemeral ports (many short-lived loopback connections in TIME_WAIT, also from
+    // other processes) listenForClients fails; wait for ports to come back rather than give up.
     bool listen()
     {
-        if (!server.listenForClients(QHostAddress::LocalHost, 0)) {
+        bool ok = false;
+        for (int attempt = 0; attempt < 600 && !ok; attempt++) {
+            ok = server.listenForClients(QHostAddress::LocalHost, 0);
+            if (!ok) {
+                QThread::msleep(100);
+            }
+        }
+        if (!ok) {
             return false;
         }
         auto *tcp = server.findChild<QTcpServer *>();
@@ -155,7 +172,7 @@ struct World {
         return port != 0;
     }
 
-    qint64 activity() const { return att.rxTotal + vic.rxTotal + logRecords + sig.size() + (att.closed ? 1 : 0) + (vic.closed ? 1 : 0); }
+    qint64 activity() const { return att.rxTotal + vic.rxTotal + sib.rxTotal + logRecords + sig.size() + (att.closed ? 1 : 0) + (vic.closed ? 1 : 0); }
 
     // A socket is quiet when nothing is in flight in either direction: Qt's buffers are empty,
     // the kernel's send queue has been delivered and acknowledged (SIOCOUTQ == 0) and nothing
@@ -200,7 +217,7 @@ struct World {
             QCoreApplication::sendPostedEvents();
             QCoreApplication::sendPostedEvents(nullptr, QEvent::DeferredDelete);
             QCoreApplication::processEvents(QEventLoop::AllEvents);
-            bool q1 = sockQuiet(&att.sock), q2 = sockQuiet(&vic.sock);
+            bool q1 = sockQuiet(&att.sock), q2 = sockQuiet(&vic.sock) && sockQuiet(&sib.sock);
             bool quiet = q1 && q2;
             const auto socks = server.findChildren<QSslSocket *>();
             for (auto *s : socks) {
@@ -208,7 +225,7 @@ struct World {
                 quiet = quiet && q;
             }
             QJsonArray tmp;
-            bool whole = att.project(tmp) && vic.project(tmp);
+            bool whole = att.project(tmp) && vic.project(tmp) && sib.project(tmp);
             qint64 a = activity();
             idle = (quiet && whole && a == last) ? idle + 1 : 0;
             last = a;
@@ -248,9 +265,8 @@ bool hasKind(const QJsonArray &recs, const QString &k)
 }
 
 // honest login of the victim; every wait is for the element the protocol says comes next
-bool loginVictim(World &w)
+bool loginHonest(World &w, RawClient &v, const QString &user, const QString &pw, const QString &res)
 {
-    auto &v = w.vic;
     w.checker.autoFinish = true;
     QJsonArray seen;
     auto waitFor = [&](const QString &k) {
@@ -262,12 +278,12 @@ bool loginVictim(World &w)
     bool ok = v.connectTo(w.port);
     v.send(streamOpen(kDomain));
     ok = ok && waitFor("features");
-    v.send("<auth xmlns='urn:ietf:params:xml:ns:xmpp-sasl' mechanism='PLAIN'>" + b64(QByteArray(1, '\0') + kVic.toUtf8() + QByteArray(1, '\0') + kVicPw.toUtf8()) + "</auth>");
+    v.send("<auth xmlns='urn:ietf:params:xml:ns:xmpp-sasl' mechanism='PLAIN'>" + b64(QByteArray(1, '\0') + user.toUtf8() + QByteArray(1, '\0') + pw.toUtf8()) + "</auth>");
     ok = ok && waitFor("success");
     int before = seen.size();
     v.send(streamOpen(kDomain));
     ok = ok && qxvSpin([&] { QJsonArray all; return v.project(all) && all.size() >= before + 2; });
-    v.send("<iq type='set' id='vb'><bind xmlns='urn:ietf:params:xml:ns:xmpp-bind'><resource>" + kVicRes.toUtf8() + "</resource></bind></iq>");
+    v.send("<iq type='set' id='vb'><bind xmlns='urn:ietf:params:xml:ns:xmpp-bind'><resource>" + res.toUtf8() + "</resource></bind></iq>");
     ok = ok && waitFor("iq");
     before = seen.size();
     v.send("<iq type='set' id='vs'><session xmlns='urn:ietf:params:xml:ns:xmpp-session'/></iq>");
@@ -334,8 +350,32 @@ struct Script {
 
     QString jidOf(const QString &cls) const
     {
+        const QString bare = kAtt + "@" + kDomain;
+        const QString r = res.isEmpty() ? QStringLiteral("ra") : res;
         if (cls == "own") {
-            return kAtt + "@" + kDomain + "/" + (res.isEmpty() ? QStringLiteral("ra") : res);
+            return bare + "/" + r;
+        }
+        // addresses of the own account that are NOT this connection's address, and near-misses of it
+        if (cls == "ownOtherRes") {
+            return bare + "/zz";                 // a resource nobody ever bound
+        }
+        if (cls == "ownSibling") {
+            return bare + "/" + kSibRes;         // the resource of another live session of the account
+        }
+        if (cls == "ownCase") {
+            return bare + "/" + (r.toUpper() != r ? r.toUpper() : r.toLower());   // resources are case-sensitive
+        }
+        if (cls == "ownSlash") {
+            return bare + "/";                   // trailing slash, empty resource
+        }
+        if (cls == "ownPrefix") {
+            return bare + "/" + r + "2";         // own full JID is a proper prefix
+        }
+        if (cls == "ownDomain") {
+            return kDomain;
+        }
+        if (cls == "ownLookalike") {
+            return bare + ".evil.net/" + r;      // own localpart at a domain that starts like the served one
         }
         if (cls == "ownBare") {
             return kAtt + "@" + kDomain;
@@ -425,8 +465,17 @@ bool runBehaviour(Ctx &ctx, const QString &caseId, const QJsonArray &steps)
         fprintf(stderr, "server: cannot listen on loopback\n");
         return false;
     }
-    if (!loginVictim(w)) {
+    if (!loginHonest(w, w.vic, kVic, kVicPw, kVicRes)) {
         fprintf(stderr, "server: victim login failed, unparsed tail: %s\n", qPrintable(w.vic.tail));
+        return false;
+    }
+    for (const auto &sv : steps) {
+        if (sv.toObject()["f"].toString() == "ownSibling") {
+            w.haveSib = true;
+        }
+    }
+    if (w.haveSib && !loginHonest(w, w.sib, kAtt, kAttPw, kSibRes)) {
+        fprintf(stderr, "server: sibling login failed, unparsed tail: %s\n", qPrintable(w.sib.tail));
         return false;
     }
     if (!w.att.connectTo(w.port) || !w.settle()) {
@@ -474,6 +523,9 @@ bool runBehaviour(Ctx &ctx, const QString &caseId, const QJsonArray &steps)
         }
         ev["att"] = att;
         ev["vic"] = vic;
+        if (w.haveSib) {
+            ev["sib"] = w.sib.takeNew();   // informational: what the account's other session received
+        }
         ev["sig"] = w.sig;
         ev["chk"] = w.checker.log;
         ev["closed"] = !w.att.isOpen();
@@ -489,9 +541,16 @@ bool runBehaviour(Ctx &ctx, const QString &caseId, const QJsonArray &steps)
             break;
         }
     }
-    // tear down: clients first, then the server (its destructor closes the listening socket)
-    w.att.sock.abort();
-    w.vic.sock.abort();
+    // tear down: clients first, then the server (its destructor closes the listening socket).
+    // The clients close with RST (SO_LINGER 0): no TIME_WAIT entry is left behind, which at several
+    // hundred connections per second would exhaust the ephemeral port range within a minute.
+    for (auto *c : { &w.att, &w.vic, &w.sib }) {
+        if (c->sock.socketDescriptor() >= 0) {
+            linger lg { 1, 0 };
+            setsockopt(int(c->sock.socketDescriptor()), SOL_SOCKET, SO_LINGER, &lg, sizeof(lg));
+        }
+        c->sock.abort();
+    }
     w.settle();
     return fine;
 }
